@@ -183,14 +183,17 @@ Definition parse_route (r : raw_route) : result plugin :=
   do _ <- reject_if (rr_deprecated r && (lt =? infinity)) 38;;
   Ok (PRoute (N.eqb a 0 && N.eqb b 0) a b prf lt (rr_deprecated r)).
 
-(* the two "must not overlap" loops of parsePlugins: every ordered pair of *distinct elements*
-   (pointer inequality = index inequality); [skip] is the auto-route exemption *)
-Definition indexed {A} (l : list A) : list (nat * A) := combine (seq 0 (length l)) l.
-Definition overlap_found (skip : N * N -> bool) (l : list (N * N)) : bool :=
-  existsb (fun ip1 : nat * (N * N) => existsb (fun ip2 : nat * (N * N) =>
-    let '(i, p1) := ip1 in let '(j, p2) := ip2 in
-    negb (Nat.eqb i j) && negb (skip p1) && negb (skip p2) &&
-    overlaps (fst p1) (snd p1) (fst p2) (snd p2)) (indexed l)) (indexed l).
+(* the two "must not overlap" loops of parsePlugins: the outer loop takes every element x, the
+   inner loop every element at a *different position* (the code compares pointers), i.e. the
+   elements before and after x; [skip] is the auto-route exemption *)
+Definition overlap_chk (skip : N * N -> bool) (p1 p2 : N * N) : bool :=
+  negb (skip p1) && negb (skip p2) && overlaps (fst p1) (snd p1) (fst p2) (snd p2).
+Fixpoint overlap_from (skip : N * N -> bool) (before l : list (N * N)) : bool :=
+  match l with
+  | [] => false
+  | x :: t => existsb (overlap_chk skip x) (before ++ t) || overlap_from skip (before ++ [x]) t
+  end.
+Definition overlap_found (skip : N * N -> bool) (l : list (N * N)) : bool := overlap_from skip [] l.
 Definition plugin_prefix (p : plugin) : N * N :=
   match p with
   | PPrefix _ a b _ _ _ _ _ => (a, b)
